@@ -34,3 +34,6 @@ CFG = dict(
     level_note="proved: totality of the whole event build from raw bytes; totality of avalanches() modulo faer_shape and the table fact. Not proved: vertex() beyond its control skeleton (C14's gaps N3/N4/V3/V4, Z1) - exercised by the panic search on realistic and extreme events. The end-to-end model is tied to the code by the differential run of check C10 (raw-bank cases), the avalanches model by the `av` cases (unit avt). Trusted as for C10; plus the mapping of a component Panic to a decode error in the environment record (backed by C09_e2e_components_never_panic, C09_e2e_map_arguments_in_range).",
     note='a `panic` observation is a bank list that unwinds the real library; an ok/err difference is a departure from the model proved total',
 )
+
+# the pinned theorems depend on regenerated tables (coq/Gen): a failing translator is a broken tie
+CFG["uses_gen"] = True
